@@ -109,6 +109,14 @@ def list_graphs():
     yield ("list:empty", [[S1, P1, NIL]], True)
     for n in (1, 2, 3):
         yield ("list:%d" % n, [[S1, P1, h]] + mklist(m[:n], h, "l"), True)
+    # lists whose members are all resources: the form rdf:parseType="Collection" (pretty-xml) and @list can spell
+    r = [I(EX + "m1"), I(EX + "m2"), Bn("x"), I(EX + "m1")]
+    for n in (1, 2, 3, 4):
+        yield ("list:res-%d" % n, [[S1, P1, h]] + mklist(r[:n], h, "l") + ([[Bn("x"), P2, L("v")]] if n >= 3 else []), True)
+    yield ("list:res-members-described", [[S1, P1, h]] + mklist(r[:2], h, "l") + [[r[0], P2, L("v")], [r[1], P1, r[0]]], True)
+    yield ("list:res-two-lists", [[S1, P1, h], [S1, P2, Bn("k0")]] + mklist(r[:2], h, "l") + mklist([r[1], r[0], I(EX + "m3")], Bn("k0"), "k"), True)
+    yield ("list:res-nested", [[S1, P1, h]] + mklist([Bn("k0"), r[0]], h, "l") + mklist(r[:2], Bn("k0"), "k"), True)
+    yield ("list:res-subject-is-member", [[S1, P1, h]] + mklist([S1, r[0]], h, "l"), True)
     yield ("list:unreferenced", mklist(m[:2], h, "l"), True)
     yield ("list:iri-head", [[S1, P1, I(EX + "L")]] + mklist(m[:2], I(EX + "L"), "l"), True)
     yield ("list:head-twice", [[S1, P1, h], [S2, P1, h]] + mklist(m[:2], h, "l"), True)
